@@ -443,8 +443,14 @@ class Engine:
                 open(fn_, 'w').write(s_.to_smt2())
             # portfolio: the incremental solver gave up; the same query in fresh (non-incremental) solvers with other
             # random seeds.  Only a few times per function: a genuinely failing function fails many obligations.
-            self.n_portfolio = getattr(self, 'n_portfolio', 0) + 1
-            if self.n_portfolio <= 3:
+            # the expensive second opinions once per obligation name (its other path instances fail the same way), and
+            # for at most three names per function
+            tried = self.__dict__.setdefault('portfolio_names', set())
+            self.n_second = getattr(self, 'n_second', 0) + 1
+            # small-scope search once per obligation name and for at most three names; fresh-solver re-checks at most 6 times
+            self.n_portfolio = 99 if (name in tried or len(tried) >= 3) else 1
+            tried.add(name)
+            if self.n_second <= 6:
                 for seed in (1, 2, 3):
                     if seed < 3:
                         s_ = z3.Solver()
